@@ -36,6 +36,14 @@ def gen_value(rng, d, c, ex=()):
         return "first\n   " + "c" * big + ("\n\tlast" if rng.chance(0.5) else "")
     if r < 0.12:
         return rng.pick([None, ""])
+    if d == " " and r >= 0.90:
+        # delimiter ' ': a continuation line is delimiter-free only if it contains no space at all - indented by
+        # tabs, words separated by tabs
+        lines = [plain_value(rng, d, c, ex=ex)]
+        for _ in range(rng.randint(1, 3)):
+            words = [grammar.token(rng, d + c + '"' + BLc, 1, 6, first_forbid="[", extra=ex) for _ in range(rng.randint(1, 3))]
+            lines.append("\t" * rng.randint(1, 2) + "\t".join(words))
+        return "\n".join(lines)
     if r < 0.80 or d == " ":
         return plain_value(rng, d, c, ex=ex)
     lines = [plain_value(rng, d, c, ex=ex)]
